@@ -281,15 +281,17 @@ func (p *Pool) Put(x interface{}) {
 	if x == nil {
 		return
 	}
-	if !vsched.On() {
-		// outside runs (package init, teardown) nothing is retained, so that
-		// executions never see objects from other executions
+	if vsched.Aborting() {
+		// during teardown nothing is retained, so that executions never see objects of an aborted one
 		return
 	}
 	vsched.Point(vsched.KPool, p, nil)
 	p.fresh()
 	raceReleaseMerge(poolRaceAddr(x))
 	p.items = append(p.items, x)
+	// a second scheduling point right after the object became available: a caller that (wrongly) keeps using
+	// what it just released can be overtaken by the next user of the object
+	vsched.Point(vsched.KPool, p, nil)
 }
 
 var poolRaceHash [128]uint64
